@@ -38,36 +38,44 @@ Proof. intros b. unfold canon_bits. now rewrite of_to_bits. Qed.
 
 (* 1.0 *)
 Definition fone : f64 := d_of_Z 1.
+Lemma fone_SF : BinarySingleNaN.B2SF fone = SpecFloat.S754_finite false 4503599627370496 (-52).
+Proof. vm_compute. reflexivity. Qed.
+
+Lemma fone_eq : exists H, fone = @BinarySingleNaN.B754_finite 53 1024 false 4503599627370496 (-52) H.
+Proof.
+  generalize fone_SF. generalize fone. intros f Hf.
+  destruct f as [s|s| |s m e H]; cbn in Hf; try discriminate Hf.
+  injection Hf as -> -> ->. exists H. reflexivity.
+Qed.
+
 Lemma fone_B2R : BinarySingleNaN.B2R fone = 1%R.
 Proof.
-  unfold fone. vm_compute d_of_Z. unfold BinarySingleNaN.B2R, F2R, Defs.Fnum, Defs.Fexp, cond_Zopp.
+  destruct fone_eq as [H ->]. unfold BinarySingleNaN.B2R, F2R, Defs.Fnum, Defs.Fexp, cond_Zopp.
   simpl bpow. change (Z.pow_pos 2 52) with 4503599627370496%Z.
   apply Rinv_r. apply not_0_IZR. discriminate.
 Qed.
 
-Lemma fone_eq : exists H, fone = @BinarySingleNaN.B754_finite 53 1024 false 4503599627370496 (-52) H.
-Proof. unfold fone. vm_compute. eexists. reflexivity. Qed.
-
 Lemma fmul_one : forall x : f64, fmul x fone = x.
 Proof.
   intros x. unfold fmul.
-  destruct fone_eq as [H1 fone_eq].
+  pose proof fone_B2R as HR.
+  destruct fone_eq as [H1 fone_eq]. rewrite fone_eq in *.
   destruct x as [sx|sx| |sx mx ex Hx] eqn:Ex.
-  - rewrite fone_eq. cbn. now rewrite xorb_false_r.
-  - rewrite fone_eq. cbn. now rewrite xorb_false_r.
+  - cbn. now rewrite xorb_false_r.
+  - cbn. now rewrite xorb_false_r.
   - reflexivity.
-  - pose proof (BinarySingleNaN.Bmult_correct 53 1024 _ _ mode_NE x fone) as H.
-    rewrite fone_B2R, Rmult_1_r in H.
+  - pose proof (BinarySingleNaN.Bmult_correct 53 1024 _ _ mode_NE x (BinarySingleNaN.B754_finite false 4503599627370496 (-52) H1)) as H.
+    rewrite HR, Rmult_1_r in H.
     rewrite round_generic in H; [|apply valid_rnd_N|apply BinarySingleNaN.generic_format_B2R].
     rewrite Rlt_bool_true in H by apply BinarySingleNaN.abs_B2R_lt_emax.
     destruct H as (H1' & H2 & H3). rewrite <- Ex.
-    assert (Hf : BinarySingleNaN.is_finite (BinarySingleNaN.Bmult mode_NE x fone) = true).
-    { rewrite H2. subst x. rewrite fone_eq. reflexivity. }
+    assert (Hf : BinarySingleNaN.is_finite (BinarySingleNaN.Bmult mode_NE x (BinarySingleNaN.B754_finite false 4503599627370496 (-52) H1)) = true).
+    { rewrite H2. subst x. reflexivity. }
     apply BinarySingleNaN.B2R_Bsign_inj.
     + exact Hf.
     + subst x. reflexivity.
     + exact H1'.
     + rewrite H3.
-      * subst x. rewrite fone_eq. cbn. now rewrite xorb_false_r.
-      * destruct (BinarySingleNaN.Bmult mode_NE x fone); try reflexivity. discriminate Hf.
+      * subst x. cbn. now rewrite xorb_false_r.
+      * destruct (BinarySingleNaN.Bmult mode_NE x _); try reflexivity. discriminate Hf.
 Qed.
